@@ -498,6 +498,19 @@ fn faulty(a: &Ast, class: u32, x: u32, y: u32) -> Faulty {
             let val = if bad.is_empty() && pick(9, x) >= 4 { "abc".to_string() } else { neg };
             ("bad_number", render_tokens(&["go".to_string(), key.to_string(), val], sp))
         }
+        3 if y % 3 == 0 => {
+            // a well-formed move text in which ONE character is replaced by a non-ASCII character whose low
+            // 7 / 8 / 16 bits equal the original (catches decoders that truncate the code point)
+            let good = ["e2e4", "a7a8q", "h1h8", "b1c3", "g7g8n"][pick(5, x)];
+            let mut cs: Vec<char> = good.chars().collect();
+            let i = pick(cs.len(), x / 5);
+            let c = cs[i] as u32;
+            let alias = [c + 0x100, c + 0x200, c + 0x80 + 0x80 * (x / 64 % 3), c + 0x1_0000, c + 0x1F400, c + 0x300][pick(6, x / 32)];
+            cs[i] = char::from_u32(alias).unwrap_or('é');
+            let tok: String = cs.into_iter().collect();
+            let t: Vec<String> = if y % 2 == 0 { vec!["go".into(), "searchmoves".into(), tok] } else { vec!["position".into(), "startpos".into(), "moves".into(), tok] };
+            ("bad_move_token_aliasing_char", render_tokens(&t, sp))
+        }
         3 => {
             let bad = BAD_MOVES[pick(BAD_MOVES.len(), x)];
             let mut t: Vec<String> = if y % 2 == 0 { vec!["go".into(), "searchmoves".into(), "e2e4".into()] } else { vec!["position".into(), "startpos".into(), "moves".into(), "e2e4".into()] };
